@@ -62,6 +62,7 @@ C11Stmts ==
     \cup UNION {{W(ByTag(t), Set(<<SetP("k", Lit("i1"))>>), <<>>),
                  W(ByTag(t), Set(<<SetP("k", Lit("i2"))>>), <<>>),
                  W(ByTag(t), Rem(<<RemP("k")>>), <<>>),
+                 W(ByTag(t), Set(<<SetP("k", Lit("null"))>>), <<>>),      \* SET n.k = null releases the value like REMOVE
                  W(ByTag(t), Delete("n", FALSE), <<>>),
                  W(ByTag(t), Set(<<SetL("A")>>), <<>>),
                  W(ByTag(t), Rem(<<RemL("A")>>), <<>>)} : t \in UsedTags}
